@@ -48,12 +48,16 @@ def execute(ctx, pool, cases, group_key):
     for k, idxs in groups.items():
         for j in range(0, len(idxs), 200):
             part = idxs[j:j + 200]
-            reqs.append(dict(db=cases[part[0]]["db"], qs=[cases[i]["q"] for i in part], _idx=part))
+            reqs.append(dict(db=cases[part[0]]["db"], qs=[cases[i]["q"] for i in part], _idx=part, caps=cases[part[0]].get("caps") or []))
 
     def on_result(req, resp):
         if resp.get("fatal"):
             for i in req["_idx"]:
                 cases[i]["res"] = dict(err=True, panic="process died: " + (resp.get("viol") or [""])[0], cols=[], rows=[], sql="")
+            return
+        if resp.get("setup") == "PANIC":
+            for i in req["_idx"]:
+                cases[i]["res"] = dict(resp["res"][0])
             return
         if resp.get("setup"):
             raise vlib.Undecided("sem harness could not load the database: %s" % resp["setup"])
